@@ -69,6 +69,61 @@ let () = iter_lines (fun line ->
       let s = List.map (fun x -> iz (s16 ((if avx2 then asm_quantize_avx2 else asm_quantize_sse2) q.q_recip q.q_corr q.q_scale (w16 (zi x))))) xs in
       let c = List.map (fun x -> iz (c_quantize q.q_recip q.q_corr q.q_shift (zi x))) xs in
       Printf.printf "S %s %s | C %s %s\n" hdr (pr_ints s) hdr (pr_ints c)
+  | g :: v2 :: a2 :: a3 :: rest when g = "plaing" || g = "fancyg" || g = "downg" ->
+      let fs = fields line in
+      let v2 = v2 = "1" and a2 = int_of_string a2 and a3 = int_of_string a3 in
+      let rows = List.map (fun f -> zl (ints f)) (List.tl fs) in
+      let hdl = function [] -> [] | r :: _ -> r in
+      let one = S O in let two = S (S O) in
+      let out (s : _ list list) (c : _ list list) = Printf.printf "S %s | C %s\n" (prz (List.concat s)) (prz (List.concat c)) in
+      if g = "plaing" then begin
+        let body = if v2 then (fun rs -> [dup_row (hdl rs); dup_row (hdl rs)]) else (fun rs -> [dup_row (hdl rs)]) in
+        let st = if v2 then (if avx2 then rowloop_h2v2_upsample_avx2 else rowloop_h2v2_upsample_sse2)
+                 else (if avx2 then rowloop_h2v1_upsample_avx2 else rowloop_h2v1_upsample_sse2) in
+        let cut r = zl (take ((a2 + 1) / 2) (il r)) in      (* output_width a2: (a2+1)/2 input samples are read *)
+        let rows = List.map cut rows in
+        let trim l = List.map (fun r -> zl (take a2 (il r))) l in
+        out (trim (asm_rows body st (zi a3) rows)) (trim (c_rows body one (zi (if v2 then 2 else 1)) (zi a3) rows))
+      end else if g = "fancyg" then begin
+        let k = if avx2 then jdsample_avx2_consts else jdsample_sse2_consts in
+        let n = nat_of_int a2 in
+        let cut l = zl (take a2 (il l)) in
+        let pad l = l @ List.init (max 0 (a2 + 96 - List.length l)) (fun _ -> Z0) in
+        if v2 then begin
+          let arr = Array.of_list (List.map pad rows) in
+          let trip = List.init (Array.length arr - 2) (fun i -> (arr.(i), arr.(i + 1), arr.(i + 2))) in
+          let bs = function [] -> [] | (a, c, b) :: _ -> [flat2 (asm_h2v2_fancy k vec n c a); flat2 (asm_h2v2_fancy k vec n c b)] in
+          let bc = function [] -> [] | (a, c, b) :: _ -> [flat2 (c_h2v2_fancy (cut c) (cut a)); flat2 (c_h2v2_fancy (cut c) (cut b))] in
+          let st = if avx2 then rowloop_h2v2_fancy_upsample_avx2 else rowloop_h2v2_fancy_upsample_sse2 in
+          out (asm_rows bs st (zi a3) trip) (c_rows bc one (zi 2) (zi a3) trip)
+        end else begin
+          let rs = List.map pad (List.tl rows) in       (* drop row -1 *)
+          let bs rs = [flat2 (asm_h2v1_fancy k vec n (hdl rs))] in
+          let bc rs = [flat2 (c_h2v1_fancy (cut (hdl rs)))] in
+          let st = if avx2 then rowloop_h2v1_fancy_upsample_avx2 else rowloop_h2v1_fancy_upsample_sse2 in
+          out (asm_rows bs st (zi a3) rs) (c_rows bc one (zi 1) (zi a3) rs)
+        end
+      end else begin
+        let iw = a2 and wib = a3 in
+        let vs = int_of_string (List.hd rest) in
+        let oc = 8 * wib in
+        let pad l = l @ List.init (max 0 (2 * oc + 64 - List.length l)) (fun _ -> Z0) in
+        let rows = List.map pad rows in
+        let k = if avx2 then jcsample_avx2_consts else jcsample_sse2_consts in
+        let niw = nat_of_int iw and noc = nat_of_int oc in
+        let r2 = function a :: b :: _ -> (a, b) | _ -> ([], []) in
+        if v2 then begin
+          let bs rs = let (a, b) = r2 rs in [asm_h2v2_downsample k vec niw noc a b] in
+          let bc rs = let (a, b) = r2 rs in [c_h2v2_downsample niw noc a b] in
+          let st = if avx2 then rowloop_h2v2_downsample_avx2 else rowloop_h2v2_downsample_sse2 in
+          out (asm_rows bs st (zi vs) rows) (c_rows bc two (zi 1) (zi vs) rows)
+        end else begin
+          let bs rs = [asm_h2v1_downsample k vec niw noc (hdl rs)] in
+          let bc rs = [c_h2v1_downsample niw noc (hdl rs)] in
+          let st = if avx2 then rowloop_h2v1_downsample_avx2 else rowloop_h2v1_downsample_sse2 in
+          out (asm_rows bs st (zi vs) rows) (c_rows bc one (zi 1) (zi vs) rows)
+        end
+      end
   | "fdctfst" :: xs ->
       let blk = zl (List.map int_of_string xs) in
       Printf.printf "S %s | C %s\n" (prz (asm_fdct_ifast blk)) (prz (c_fdct_ifast blk))
